@@ -15,7 +15,8 @@ def run(c):
     c.guard("tlc_edges", res.edges)
     total_applied = 0
     reports = {}
-    for ad in ("simplewlru", "wlru"):
+    # the -nocb adapters build the caches without an eviction callback (evictions visible through counts and state only)
+    for ad in ("simplewlru", "wlru", "simplewlru-nocb", "wlru-nocb"):
         rep = vlib.replay_edges(c, ad, edges, walks=c.pick(300, 3000), wlen=c.pick(60, 200), clause="lru-model")
         reports[ad] = {k: rep[k] for k in ("edges", "applied", "skipped", "distinct_pre", "distinct_edges", "walks", "walk_steps", "ops", "mismatch_count")}
         total_applied += rep["applied"]
